@@ -449,7 +449,7 @@ func runHostile(o *rec, self, scratch string, id int, hc *hostileCase) {
 	}
 	stderr, exitErr := np.finish()
 	crashed := !alive || strings.Contains(stderr, "panic:") || strings.Contains(stderr, "fatal error:")
-	wit := map[string]interface{}{"case": hc, "script_error": scriptErr, "canary_error": canaryErr, "exit": fmt.Sprint(exitErr), "stderr_tail": tail(stderr, 3000)}
+	wit := map[string]interface{}{"case": hc, "script_error": scriptErr, "canary_error": canaryErr, "exit": fmt.Sprint(exitErr), "panic_trace": panicHead(stderr, 3500)}
 	outcome := "survived"
 	if crashed {
 		outcome = "died"
@@ -504,6 +504,22 @@ func drainUntilClosed(c net.Conn) {
 	c.SetReadDeadline(time.Now().Add(10 * time.Second))
 	io.Copy(ioutil.Discard, c)
 	c.Close()
+}
+
+// panicHead: the trace from the panic / fatal error line on.
+func panicHead(stderr string, n int) string {
+	i := strings.Index(stderr, "panic:")
+	if j := strings.Index(stderr, "fatal error:"); j >= 0 && (i < 0 || j < i) {
+		i = j
+	}
+	if i < 0 {
+		return tail(stderr, n)
+	}
+	s := stderr[i:]
+	if len(s) > n {
+		s = s[:n]
+	}
+	return s
 }
 
 func firstLine(stderr string) string {
